@@ -29,6 +29,7 @@ type Clause struct {
 
 type Contract struct {
 	PkgPath string
+	TypePkg string // extern contracts: package path of the interface/struct type (default: PkgPath)
 	Name    string // ssa RelString, e.g. "(*SwapData).getTimelockPolicy"; for interfaces "Iface.Method"
 	IsIface bool
 	Props   []string
@@ -40,6 +41,8 @@ type Contract struct {
 	Inline, Trusted, NoPanic, Pure, Havoc bool
 	MustCall []*Clause // "mustcall" style clauses are expressed through ghosts; reserved
 	Forall   []GhostDecl
+	checkedUsable, unusable bool
+	Sets     []*Clause // `sets ghost.X = expr`: ghost assignment at the function's exit (Label = X)
 	File    string
 	Line    int
 }
@@ -211,8 +214,10 @@ func (cs *ContractSet) parseFile(pkgPath, file string) error {
 			return cl
 		}
 		switch kw {
-		case "func", "interface":
-			cur = &Contract{PkgPath: pkgPath, Name: rest, IsIface: kw == "interface", Loops: map[int][]*Clause{}, File: file, Line: lineNo}
+		case "func", "interface", "callback":
+			// callback <Type>.<field>: contract of the function value stored in that struct
+			// field (assumed for the callee, proved as a precondition at every call through the field)
+			cur = &Contract{PkgPath: pkgPath, Name: rest, IsIface: kw != "func", Loops: map[int][]*Clause{}, File: file, Line: lineNo}
 			key := pkgPath + "::" + rest
 			if _, dup := cs.Funcs[key]; dup {
 				return fmt.Errorf("%s:%d: duplicate contract for %s", file, lineNo, rest)
@@ -243,6 +248,21 @@ func (cs *ContractSet) parseFile(pkgPath, file string) error {
 				return fmt.Errorf("%s:%d: ensures outside func", file, lineNo)
 			}
 			cur.Ens = append(cur.Ens, mk("ensures"))
+		case "sets":
+			// sets ghost.X = <expr>: ghost code executed when the function returns (expr is
+			// evaluated in the post-state and may use result/old()); no obligation by itself
+			if cur == nil {
+				return fmt.Errorf("%s:%d: sets outside func", file, lineNo)
+			}
+			eq := strings.Index(rest, "=")
+			if !strings.HasPrefix(rest, "ghost.") || eq < 0 {
+				return fmt.Errorf("%s:%d: sets ghost.<name> = <expr>", file, lineNo)
+			}
+			g := strings.TrimSpace(rest[len("ghost."):eq])
+			rest = strings.TrimSpace(rest[eq+1:])
+			cl := mk("sets")
+			cl.Label = g
+			cur.Sets = append(cur.Sets, cl)
 		case "refute":
 			// a postcondition that is only searched for counterexamples (the proof is
 			// beyond the solvers): sat = violation, unknown = bounded search exhausted
